@@ -114,6 +114,21 @@ fn run_k<const K: usize>(sc: &Value, id: usize, out: Out) {
         }
         json!({"hint0": [h0.0, h0.1.map(|x| x as i64).unwrap_or(-1)], "steps": steps})
     });
+    // --- per decision node: the closed half-spaces of every outgoing label (edge_polytope) and evaluate_decision on the grid
+    let edges: Vec<Value> = t.tree.decision_indices().map(|i| {
+        let nd = t.tree.tree_node(i).unwrap();
+        let e = exps.get(&i).cloned().unwrap_or(0);
+        let f = 2f64.powi(-e);
+        let per_label: Vec<Value> = (0..K).map(|l| match guarded(|| affinitree::pwl::iter::edge_polytope(&nd.value.aff, l)) {
+            Ok(p) => poly_json(&affinitree::linalg::affine::Polytope::from_mats(&p.mat * f, &p.bias * f), q),
+            Err(_) => json!({"m": [], "b": [], "q": 1, "n": -1, "ex": true}),
+        }).collect();
+        let decide: Vec<Value> = grid(t.in_dim(), 4).iter().map(|p| {
+            let x = ndarray::Array1::from_iter(p.iter().map(|v| *v as f64 / 2.0));
+            json!([p, guarded(|| t.evaluate_decision(nd, &x) as i64).unwrap_or(-1)])
+        }).collect();
+        json!({"i": i, "labels": per_label, "decide": decide})
+    }).collect();
     // --- find_terminal / path_to_node on a grid of half-integers
     let den = 2i64;
     let pts = grid(t.in_dim(), 4);
@@ -140,5 +155,5 @@ fn run_k<const K: usize>(sc: &Value, id: usize, out: Out) {
     out(json!({"fam": "regions", "sc": id, "first": true, "k": K, "q": q as i64, "tree": tj, "sched": sched, "den": den,
                "gen": match gen_run { Ok(s) => json!({"res": "ok", "steps": s}), Err(_) => json!({"res": "panic", "steps": []}) },
                "iter": match iter_run { Ok(v) => json!({"res": "ok", "run": v}), Err(_) => json!({"res": "panic", "run": {"hint0": [0, -1], "steps": []}}) },
-               "subs": subs, "finds": finds}));
+               "subs": subs, "finds": finds, "edges": edges}));
 }
